@@ -53,13 +53,19 @@ class Stats:
 
 
 class Ctx:
-    def __init__(self, decisions, stats, timeout_ms=SOLVER_TIMEOUT_MS):
+    def __init__(self, decisions, stats, timeout_ms=SOLVER_TIMEOUT_MS, ematching_only=False):
         self.decisions = list(decisions)
         self.di = 0
         self.alternatives = []
         self.stats = stats
         self.solver = z3.Solver()
         self.solver.set("timeout", timeout_ms)
+        self.ematching_only = ematching_only
+        if ematching_only:
+            # quantified contracts carry explicit triggers: E-matching decides the valid obligations in milliseconds and
+            # answers `unknown` at once where no proof exists (model-based instantiation is tried afterwards)
+            self.solver.set("auto_config", False)
+            self.solver.set("mbqi", False)
         self.timeout_ms = timeout_ms
         self.pc = []
         self.checks = []
@@ -71,6 +77,7 @@ class Ctx:
         self.covers = set()
         self.fresh_log = []        # every fresh constant created on this path, in order
         self.conds = []            # path conditions proper (branches and non-axiom assumptions), in order
+        self.axiom_log = []        # assumptions marked as axioms (contracts, environment facts)
 
     # ---- fresh symbols (deterministic per path prefix)
     def _name(self, base):
@@ -132,6 +139,8 @@ class Ctx:
         self.pc.append(f)
         if not axiom:
             self.conds.append(f)
+        else:
+            self.axiom_log.append(f)
         self.solver.add(f)
 
     def assume_checked(self, f):
@@ -214,6 +223,23 @@ class Ctx:
             self.solver.set("timeout", min(self.timeout_ms, 5000))
         r = self._check(neg)
         self.solver.set("timeout", self.timeout_ms)
+        if r == z3.unknown and self.ematching_only:
+            s2 = z3.Solver()
+            s2.set("timeout", self.timeout_ms)
+            s2.add(self.pc)
+            s2.add(neg)
+            r = s2.check()
+            self.stats.solver_calls += 1
+            if r == z3.sat:
+                try:
+                    mm = s2.model()
+                    dt = time.time() - t0
+                    c = Check(oid, "failed", model=self.model_dict(mm), seconds=dt, detail=detail)
+                    c.path = list(self.decisions[: self.di])
+                    self.checks.append(c)
+                    return c
+                except Exception:
+                    pass
         if r == z3.unknown and getattr(self, "retry_unknown", True):
             # second opinion: cvc5 (decides the string obligations z3 leaves open); then one z3 retry with a 4x budget
             r2 = cvc5_check(self.smt2(neg), 60 if stringy else 20)
@@ -343,7 +369,7 @@ def _pyval(v):
     return str(v)
 
 
-def explore(harness, max_paths=20000, timeout_ms=SOLVER_TIMEOUT_MS, retry_unknown=True):
+def explore(harness, max_paths=20000, timeout_ms=SOLVER_TIMEOUT_MS, retry_unknown=True, ematching_only=False):
     """Run `harness(ctx)` along every feasible path.  Returns (list of finished ctxs, stats)."""
     stats = Stats()
     work = [[]]
@@ -352,7 +378,7 @@ def explore(harness, max_paths=20000, timeout_ms=SOLVER_TIMEOUT_MS, retry_unknow
         dec = work.pop()
         if stats.paths >= max_paths:
             raise Unsupported(f"path budget {max_paths} exhausted")
-        ctx = Ctx(dec, stats, timeout_ms)
+        ctx = Ctx(dec, stats, timeout_ms, ematching_only=ematching_only)
         ctx.retry_unknown = retry_unknown
         ctx.end = "complete"
         try:
